@@ -1,0 +1,18 @@
+//go:build verif
+
+package waits
+
+// Machine-checked contracts for /verif (gowp). Comment-only file: it adds no code.
+
+// C13: get-or-create of the per-scope wait manager runs entirely inside one locked section
+//@ func WaitManager.ForScope [C13]
+//@   requires ctxScope != nil
+//@   layers trace contract
+//@   trace LockData as LOCK
+//@   trace DataScopeLocker.Value as GET bind got
+//@   trace Scope.SetValue as RAWSET
+//@   trace Scope.Value as RAWGET
+//@   trace DataScopeLocker.SetValue as SET
+//@   trace DataScopeLocker.Commit as COMMIT
+//@   trace_ensures got == nil : ^LOCK GET SET COMMIT $
+//@   trace_ensures got != nil : ^LOCK GET COMMIT $
